@@ -44,6 +44,7 @@ def highways(sr: int, sc: int, h: int) -> np.ndarray:
 
 class A(Adapter):
     name = "RobotWarehouse"
+    run_scale = 1
     mask_mode = "per_agent"
     noop = 0
     fork_every = 4
